@@ -107,7 +107,8 @@ CHECKS = {
     },
     "C13": {
         "bins": True,
-        "engines": lambda tier: [{"engine": "e4", "shards": 4, "timeout_s": 2400, "args": {"family": "c13", "scenarios": 80 if tier == "thorough" else 12, "parallel": 16 if tier == "thorough" else 12}}],
+        "engines": lambda tier: [{"engine": "e4", "shards": 4, "timeout_s": 2400, "args": {"family": "c13", "scenarios": 80 if tier == "thorough" else 12, "parallel": 16 if tier == "thorough" else 12}},
+                                 {"engine": "e3p", "shards": 4, "timeout_s": 3000, "args": {"cases": 15 if tier == "thorough" else 2}}],
         "level": "fault_enumeration",
         "rule": "case = one outage/recovery scenario against the real client binary (max-retry-time 2-3 s, auto-retry-delay 3-4 s, max-interval 1 s) and one fake tower: error kind "
                 "in {connection refused, subscription error then renewable, garbage replies, connection refused + client restart, plain rejection, refused then garbage}; "
@@ -296,9 +297,15 @@ CHECKS = {
         ],
     },
     "C16": {
-        "engines": lambda tier: [{"engine": "e5c16", "shards": 16, "args": {"messages": 2500 if tier == "thorough" else 120}}],
+        "bins": True,
+        "engines": lambda tier: [{"engine": "e5c16", "shards": 16, "args": {"messages": 2500 if tier == "thorough" else 120}},
+                                 {"engine": "e3p", "shards": 4, "timeout_s": 3000, "args": {"cases": 15 if tier == "thorough" else 2}}],
         "level": "exploration",
-        "rule": "case = one message exchange through the real router between the plugin's real client code (register, send_appointment, post_request + "
+        "rule": "(second engine e3p: the two real binaries against each other - watchtower-client registered with a real teosd over real HTTP: every stored receipt verifies under "
+                "the tower id, the tower's stored blob decrypts under the commitment txid to the penalty the client was given, getappointment through the client agrees with the "
+                "tower before and after the breach is mined and answered (dispute txid, penalty txid, raw penalty), getsubscriptioninfo equals the tower's row; then the tower "
+                "process is killed, a revocation arrives, the tower restarts on the same address and the client must deliver by itself.) "
+                "case = one message exchange through the real router between the plugin's real client code (register, send_appointment, post_request + "
                 "process_post_response for get_appointment / get_subscription_info) and a recording, scripted PublicTowerServices stub: generated request values "
                 "(random ids / locators, blobs of 0..850 bytes, to_self_delay and all numbers at u32 boundaries, signature strings incl. unicode, quotes, escapes, "
                 "control characters, trimmed to the endpoint's size limit) must be recorded by the stub field for field; scripted replies (all reply types, both "
